@@ -150,10 +150,11 @@ def altitude(msg: str) -> None | int:
     if tc < 19:
         altcode = altbin[0:6] + "0" + altbin[6:]
         alt = common.altitude(altcode)
-        if alt != -999999:
+        if alt not in (-999999, -1):
             return alt
         else:
-            # return None if altitude is invalid
+            # return None if altitude is invalid (the compiled common module
+            # signals it with -999999, and an illegal Gillham code with -1)
             return None
     else:
         return common.bin2int(altbin) * 3.28084  # type: ignore
